@@ -122,4 +122,80 @@ example : (Rep.chain [.array [.int 1, .int 2], .count] [2]).wf ∧
   refine ⟨?_, rfl⟩
   simp [Rep.wf, wfAll, chainOk, Rep.len, USIZE]
 
+
+/-! ### slicing (`take`, `skip`, `take_while`, `skip_until` all go through `XSequence::slice`) -/
+
+/-- `slice` never fails on a well-formed sequence, and each of its four outcomes — the whole-sequence shortcut
+(`.ok none`: the same object is returned), the canonical empty sequence, a plain `Slice`, and the flattened
+slice of a slice — is well formed and denotes `drop start` of the list cut at position `end`
+(`Sem.dropTake`), for every `start`/`end` that fit `usize`. -/
+theorem slice_den (r : Rep) (h : r.wf) (start : Nat) (end_ : Option Nat) (hs : start < USIZE)
+    (he : ∀ e, end_ = some e → e < USIZE) :
+    match r.mkSlice start end_ with
+    | .ok none => SemEq (den r) ((den r).dropTake start end_)
+    | .ok (some s) => s.wf ∧ SemEq (den s) ((den r).dropTake start end_)
+    | .err _ => False
+    | .panic _ => False := mkSlice_spec r h start end_ hs he
+
+/-- a slice of a slice addresses the origin directly (when the shifted bounds fit `usize`) and still denotes
+the slice of the slice -/
+theorem slice_of_slice (origin : Rep) (os : Nat) (oe : Option Nat) (h : (Rep.slice origin os oe).wf)
+    (start : Nat) (end2 : Option Nat) (hfit1 : os + start < USIZE)
+    (hfit2 : ∀ e, end2 = some e → os + e < USIZE)
+    (hb : match end2 with
+      | some e => start < e ∧ (match (Rep.slice origin os oe).len with
+          | .fin n => e ≤ n | .inf => e < USIZE | .panic _ => False)
+      | none => (Rep.slice origin os oe).len = .inf) :
+    (Rep.slice origin (os + start) (end2.map (os + ·))).wf ∧
+    SemEq (den (Rep.slice origin (os + start) (end2.map (os + ·))))
+      ((den (Rep.slice origin os oe)).dropTake start end2) :=
+  slice_flatten origin os oe h start end2 hfit1 hfit2 hb
+
+/-- counts that do not fit `usize` (negative, or 2^64 and beyond) are error values of `take` and `skip` -/
+theorem take_skip_out_of_range (r : Rep) (n : Int) (h : n < 0 ∨ (USIZE : Int) ≤ n) :
+    takeB r n = .err "index too large" ∧ skipB r n = .err "index too large" := by
+  have : toUsize n = none := by
+    unfold toUsize USIZE at *
+    split
+    · exfalso; omega
+    · rfl
+  simp [takeB, skipB, this]
+
+example : (Rep.slice .count 3 none).wf ∧
+    (Rep.mkSlice (.slice .count 3 none) 2 (some 5)) = .ok (some (.slice .count 5 (some 8))) := by
+  refine ⟨by simp [Rep.wf, Rep.len, USIZE], rfl⟩
+
+/-! ### concatenation -/
+
+/-- `chain` on well-formed operands never panics; an empty operand (canonical or lazily empty) yields the other
+operand; the result is an error value exactly when the left operand is infinite (and the right one is not
+empty) or the total length does not fit `usize`; otherwise the new chain is well formed. -/
+theorem chain_wf (a b : Rep) (ha : a.wf) (hb : b.wf) :
+    match a.mkChain b with
+    | .new r => r.wf
+    | .left => (den b).len = some 0
+    | .right => (den a).len = some 0
+    | .err _ => ((den a).len = none ∧ (den b).len ≠ some 0) ∨
+        (∃ n m, (den a).len = some n ∧ (den b).len = some m ∧ USIZE ≤ n + m)
+    | .panic _ => False := mkChain_wf a b ha hb
+
+/-- In all four Chain/non-Chain combinations the new representation (spliced parts, midpoints of the right
+operand shifted by the length of the left one) denotes the concatenation of the two lists. -/
+theorem chain_den (a b : Rep) (ha : a.wf) (hb : b.wf) (r : Rep) (h : a.mkChain b = .new r) :
+    SemEq (den r) ((den a).append (den b)) := by
+  rcases mkChain_new a b r h with ⟨rfl, ea, eb⟩ | ⟨n, rfl⟩
+  · have h1 := isEmpty_den a ha ea
+    have h2 := isEmpty_den b hb eb
+    refine ⟨?_, fun i _ hv => ?_⟩
+    · rw [append_len_some h1, h2]; rfl
+    · simp [den, Sem.valid, optValid, Sem.nil] at hv
+  · exact chainOf_den a b n
+
+/-- chain + chain: the midpoint arithmetic on a concrete instance, and an element reached through it -/
+example :
+    Rep.mkChain (.chain [.array [.int 1], .array [.int 2, .int 3]] [1]) (.chain [.array [.int 4], .count] [1]) =
+      .new (.chain [.array [.int 1], .array [.int 2, .int 3], .array [.int 4], .count] [1, 3, 4]) ∧
+    (Rep.chain [.array [.int 1], .array [.int 2, .int 3], .array [.int 4], .count] [1, 3, 4]).get 6 = .ok (.int 2) :=
+  ⟨rfl, rfl⟩
+
 end XrayModel.C15
